@@ -42,6 +42,11 @@ type c09Case struct {
 	// Slow: permanent subscribers with a small buffer and a paced reader (keep the tracer's loop busy); they must
 	// observe exactly the reference sequence
 	Slow int `json:"slow,omitempty"`
+	// generations level: Gens groups of senders come and go one after the other (between two of them no sender
+	// is registered at all); the tracer's context is cancelled while the last group is registered (CancelAt = how
+	// many of its traces are sent before the cancellation) and the group goes on sending and then finishes
+	Gens  int  `json:"gens,omitempty"`
+	Relay bool `json:"relay,omitempty"` // each generation sends through an inner tracer of its own and a relay
 	// engine level
 	AST   *gen.Block       `json:"ast,omitempty"`
 	Vars  map[string]int64 `json:"vars,omitempty"`
@@ -118,6 +123,19 @@ func c09Cases(tier string, seed uint64) []fw.Case {
 		}
 		c.Name = fmt.Sprintf("tracer-crowd/%d", i)
 		cs = append(cs, fw.MkCase("tracer", &c))
+	}
+	// generations of senders on one tracer (a tracer shared by instances that come and go, a sub-process tracer
+	// entered again): the sender count returns to zero in between, the last generation is cut by a cancellation
+	for gens := 1; gens <= 4; gens++ {
+		for _, senders := range []int{1, 3} {
+			for _, at := range []int{0, 2, 5} {
+				for _, relay := range []bool{false, true} {
+					c := c09Case{Level: "generations", Gens: gens, Senders: senders, Sends: 5, Cancel: true, CancelAt: at, Relay: relay, Procs: []int{1, 4}[(gens+at)%2]}
+					c.Name = fmt.Sprintf("generations/g%d-s%d-cancel@%d-relay=%v", gens, senders, at, relay)
+					cs = append(cs, fw.MkCase("generations", &c))
+				}
+			}
+		}
 	}
 	// engine level: grammar + same order on generated programs
 	progs := forcedPairs(rng)
@@ -457,6 +475,163 @@ func c09Tracer(c *c09Case, env *fw.Env, v *fw.V) {
 	}
 }
 
+// c09Generations: see c09Case.Gens. Everything a registered sender sends before it is done must reach the
+// subscriber, in order, before the tracer closes the channel - also after the tracer's context was cancelled,
+// and also when earlier generations of senders have come and gone.
+func c09Generations(c *c09Case, env *fw.Env, v *fw.V) {
+	if c.Procs > 0 {
+		defer runtime.GOMAXPROCS(runtime.GOMAXPROCS(c.Procs))
+	}
+	perturb.Off()
+	cls := fmt.Sprintf("generations-relay=%v", c.Relay)
+	ctx, cancel := context.WithCancel(context.Background())
+	defer cancel()
+	tr := tracing.NewTracer(ctx)
+	sub := tr.SubscribeChannel(make(chan tracing.ITrace, c.Gens*c.Senders*c.Sends+16))
+	var want, got []c09Trace
+	closed := false
+	type src struct {
+		send func(tracing.ITrace)
+		done func()
+	}
+	blocked := func(what string, f func()) bool {
+		ch := make(chan struct{})
+		go func() { f(); close(ch) }()
+		select {
+		case <-ch:
+			return false
+		case <-time.After(step.Watchdog):
+			v.Inconclusive("watchdog", "%s did not return", what)
+			return true
+		}
+	}
+	for g := 0; g < c.Gens; g++ {
+		last := g == c.Gens-1
+		// the generation's senders
+		var srcs []src
+		var innerCancel context.CancelFunc
+		var inner tracing.ITracer
+		if c.Relay {
+			var ictx context.Context
+			ictx, innerCancel = context.WithCancel(context.Background())
+			inner = tracing.NewTracer(ictx)
+			tracing.NewRelay(ictx, inner, tr, func(t tracing.ITrace) []tracing.ITrace { return []tracing.ITrace{t} })
+			for k := 0; k < c.Senders; k++ {
+				h := inner.RegisterSender()
+				srcs = append(srcs, src{send: inner.Send, done: h.Done})
+			}
+		} else {
+			for k := 0; k < c.Senders; k++ {
+				h := tr.RegisterSender()
+				srcs = append(srcs, src{send: tr.Send, done: h.Done})
+			}
+		}
+		for i := 0; i < c.Sends; i++ {
+			if last && i == c.CancelAt {
+				cancel()
+			}
+			for k := range srcs {
+				t := c09Trace{Sender: g*8 + k, N: i}
+				want = append(want, t)
+				if blocked(fmt.Sprintf("Send of generation %d", g), func() { srcs[k].send(t) }) {
+					return
+				}
+			}
+		}
+		if last && c.CancelAt >= c.Sends {
+			cancel()
+		}
+		// everything sent so far has been handed to a registered sender's tracer: it must arrive (through the
+		// relay too) before anything is torn down; a channel closed before that has dropped traces
+		for len(got) < len(want) && !closed {
+			select {
+			case t, ok := <-sub:
+				if !ok {
+					closed = true
+				} else {
+					got = append(got, t.(c09Trace))
+				}
+			case <-time.After(step.Watchdog):
+				v.Inconclusive("watchdog", "generation %d: %d of %d traces arrived and the channel is still open", g, len(got), len(want))
+				return
+			}
+		}
+		if closed {
+			break
+		}
+		for k := range srcs {
+			srcs[k].done()
+		}
+		if c.Relay {
+			// the inner tracer ends with its generation; its relay then releases the outer tracer
+			innerCancel()
+			select {
+			case <-inner.Done():
+			case <-time.After(step.Watchdog):
+				v.Inconclusive("watchdog", "inner tracer of generation %d did not terminate", g)
+				return
+			}
+		}
+		if !last {
+			// let the sender count settle at zero before the next generation registers
+			time.Sleep(2 * time.Millisecond)
+		}
+	}
+	if closed {
+		v.Violate("dropped-at-termination", cls, "subscriber channel closed after %d of %d traces although the senders that sent them were registered and not done (%d generations of %d senders, cancellation after %d traces of the last one)", len(got), len(want), c.Gens, c.Senders, c.CancelAt)
+		return
+	}
+	select {
+	case <-tr.Done():
+	case <-time.After(step.Watchdog):
+		v.Violate("tracer-not-terminated", cls, "tracer did not terminate after its context was cancelled and every sender was done (generations %d)", c.Gens)
+		return
+	}
+	deadline := time.After(step.Watchdog)
+collect:
+	for {
+		select {
+		case t, ok := <-sub:
+			if !ok {
+				closed = true
+				break collect
+			}
+			got = append(got, t.(c09Trace))
+		case <-deadline:
+			break collect
+		}
+	}
+	if !closed {
+		v.Violate("channel-not-closed", cls, "subscriber channel not closed after the tracer terminated")
+		return
+	}
+	v.Add("generation-traces", len(got))
+	if len(got) != len(want) {
+		missing := ""
+		seen := map[c09Trace]bool{}
+		for _, t := range got {
+			seen[t] = true
+		}
+		for _, t := range want {
+			if !seen[t] {
+				missing = fmt.Sprintf("first missing: generation %d sender %d trace %d", t.Sender/8, t.Sender%8, t.N)
+				break
+			}
+		}
+		v.Violate("dropped-at-termination", cls, "%d of %d traces delivered before the channel was closed (%d generations of %d senders, cancellation after %d traces of the last one); %s", len(got), len(want), c.Gens, c.Senders, c.CancelAt, missing)
+		return
+	}
+	// per-sender order
+	lastN := map[int]int{}
+	for _, t := range got {
+		if n, ok := lastN[t.Sender]; ok && t.N != n+1 || !ok && t.N != 0 {
+			v.Violate("sender-order", cls, "sender %d: trace %d delivered out of order", t.Sender, t.N)
+			return
+		}
+		lastN[t.Sender] = t.N
+	}
+}
+
 func c09Engine(c *c09Case, env *fw.Env, v *fw.V) {
 	g := gen.Lower("p", c.AST)
 	sc := step.Case{G: g, Vars: c.Vars, Order: c.Order, Lenient: hasOr(g), Hooks: c.Hooks, DelaySite: c.DelaySite, DelayNth: c.DelayNth, DelayUs: 300}
@@ -491,13 +666,16 @@ func init() {
 			if cc.Level == "tracer" {
 				c09Tracer(&cc, env, v)
 				v.Nontrivial = cc.Senders > 1 || len(cc.Joiners) > 0
+			} else if cc.Level == "generations" {
+				c09Generations(&cc, env, v)
+				v.Nontrivial = true
 			} else {
 				c09Engine(&cc, env, v)
 				v.Nontrivial = true
 			}
 			return v
 		},
-		Rule:        "tracer level: PRNG histories with 1..8 senders x 200 uniquely numbered traces, a permanent reference subscriber, 0..2 permanent slow subscribers (buffer 0/1, paced readers; must see exactly the reference sequence), optional cancellation of the tracer's context at a PRNG point while the registered senders go on (everything they send must still be delivered, then the tracer terminates and closes every channel), plus 0..3 joiners that subscribe at a PRNG point, read a PRNG number of traces (pacing none/yield/50us, buffer 0/1/10/1000) and unsubscribe; crowded variants (4..6 joiners with buffers 0..2 coming and going within a few traces of each other next to 1..2 slow permanent subscribers); GOMAXPROCS 1/2/4/8; hooks in Send/broadcast/Subscribe/Unsubscribe; offline checks: reference sequence is a permutation respecting each sender's order, each joiner's reads and its buffer leftovers are contiguous blocks of the reference order in the right order, nothing sent after Subscribe returned is missed, nothing arrives after Unsubscribe returned, no deadlock at the quiescent point; engine level: generated programs run stepwise with two subscribers (also with the goroutine making the n-th hit of flow.fork / flow.action / flow.loop / tracer.send / tracer.bcast paused 300 us, on the nesting pairs and on activities whose flow action takes several sequence flows with the first one not taken), causal grammar (flow trace before NewFlow of the flows it announces, visit before leave, termination last) and identical order for both subscribers; non-trivial = > 1 sender or >= 1 joiner (tracer) / any engine run; distinct = descriptor hash",
+		Rule:        "tracer level: PRNG histories with 1..8 senders x 200 uniquely numbered traces, a permanent reference subscriber, 0..2 permanent slow subscribers (buffer 0/1, paced readers; must see exactly the reference sequence), optional cancellation of the tracer's context at a PRNG point while the registered senders go on (everything they send must still be delivered, then the tracer terminates and closes every channel), plus 0..3 joiners that subscribe at a PRNG point, read a PRNG number of traces (pacing none/yield/50us, buffer 0/1/10/1000) and unsubscribe; crowded variants (4..6 joiners with buffers 0..2 coming and going within a few traces of each other next to 1..2 slow permanent subscribers); GOMAXPROCS 1/2/4/8; hooks in Send/broadcast/Subscribe/Unsubscribe; offline checks: reference sequence is a permutation respecting each sender's order, each joiner's reads and its buffer leftovers are contiguous blocks of the reference order in the right order, nothing sent after Subscribe returned is missed, nothing arrives after Unsubscribe returned, no deadlock at the quiescent point; generations: 1..4 groups of 1 / 3 senders come and go one after the other on one tracer (directly or through an inner tracer and a relay each; the sender count returns to zero in between), the context is cancelled before / in the middle of / after the last group's 5 traces and the group finishes: every trace delivered in sender order, then the tracer terminates and closes the channel; engine level: generated programs run stepwise with two subscribers (also with the goroutine making the n-th hit of flow.fork / flow.action / flow.loop / tracer.send / tracer.bcast paused 300 us, on the nesting pairs and on activities whose flow action takes several sequence flows with the first one not taken), causal grammar (flow trace before NewFlow of the flows it announces, visit before leave, termination last) and identical order for both subscribers; non-trivial = > 1 sender or >= 1 joiner (tracer) / any engine run; distinct = descriptor hash",
 		Assumptions: []string{"subscribers honour the documented contract: they keep reading until they unsubscribe", "unsubscribing a channel twice is not exercised"},
 	})
 }
